@@ -155,10 +155,125 @@ def transfer_twins(ctx) -> None:
         d = first_difference(a, b)
         if d is None:
             ctx.rep.holds(rule, c, f"{len(a)} canonical top-level statements agree (modulo the deprecated wash_scheme=None block and the class of non-volume rejections)", where=other.where())
-        else:
+            continue
+        # statement-level comparison failed: decide by the effect skeletons (robust against refactoring of one copy)
+        ska, skb = effect_skeleton(ctx, ref, devs[0]), effect_skeleton(ctx, other, dev)
+        if ska == skb:
+            ctx.rep.holds(rule, c, f"statements differ at {d[0]} but the effect skeletons ({len(ska)} effectful events with their conditions, loops and argument origins) are identical", where=other.where())
+            continue
+        diff_i = next((i for i, (x, y) in enumerate(zip(ska, skb)) if x != y), min(len(ska), len(skb)))
+        ea = ska[diff_i] if diff_i < len(ska) else None
+        eb = skb[diff_i] if diff_i < len(skb) else None
+        if True:
             path, sa, sb = d
+            ctx.rep.data_hint = (ea, eb)
             ctx.rep.refuted(rule, c, f"the two transfer implementations differ at {path}: {devs[0].name}: `{show_stmt(sa)}`  vs  {dev.name}: `{show_stmt(sb)}` "
                             "- the same program no longer has the same effect on both devices", where=other.where(), evo=show_stmt(sa), fluent=show_stmt(sb))
+
+
+def _canon_ids(text: str) -> str:
+    """Rename loop / comprehension / definition ids by order of first appearance (functions have different node ids)."""
+    import re
+
+    seen = {}
+
+    def repl(m):
+        k = m.group(0)
+        if k not in seen:
+            seen[k] = f"#{len(seen)}"
+        return seen[k]
+
+    return re.sub(r"(loop@\d+|comp@\d+:\d+#\d+|(?<=§def\(Constant\()\d+|(?<=§rec\(Constant\()\d+)", repl, text)
+
+
+def effect_skeleton(ctx, f, dev):
+    """Ordered list of effectful events of a transfer implementation: (what, argument origins, conditions, loops)."""
+    from ..defuse import key as _key, is_sym as _is_sym
+    from ..engine import own_walk as _walk
+
+    fv = ctx.fv(f, dev)
+    selfn = f.params[0]
+
+    ids = {}
+
+    class _Norm(ast.NodeTransformer):
+        # d1: the deprecated wash_scheme=None block re-binds the name on one path
+        def visit_Call(self, n):
+            n = self.generic_visit(n)
+            if _is_sym(n) and n.func.id in ("§elem", "§idx", "§key", "§val", "§def", "§rec", "§mut", "§comp"):
+                new_args = []
+                for a in n.args:
+                    if isinstance(a, ast.Constant) and (isinstance(a.value, int) and not isinstance(a.value, bool) or (isinstance(a.value, str) and ("loop@" in a.value or "comp@" in a.value))):
+                        kk = (n.func.id in ("§def", "§rec", "§mut"), a.value)
+                        if kk not in ids:
+                            ids[kk] = f"#{len(ids)}"
+                        a = ast.Constant(value=ids[kk])
+                    new_args.append(a)
+                n.args = new_args
+            if _is_sym(n, "phi") and any(isinstance(a, ast.Name) and a.id == "wash_scheme" for a in n.args) and all(isinstance(a, (ast.Name, ast.Constant)) for a in n.args):
+                return ast.Name(id="wash_scheme", ctx=ast.Load())
+            return n
+
+    def term(e, at):
+        import copy as _copy
+
+        return _key(_Norm().visit(_copy.deepcopy(fv.res.resolve(e, at))))
+
+    events = []
+    for n in sorted(fv.cfg.nodes, key=lambda n: (n.lineno, n.id)):
+        what = None
+        args = ()
+        # rejections are represented by the facts they establish at the later events (so that moving a validation
+        # block into a helper does not change the skeleton); volume / invalid-operation errors come from shared callees
+        if True:
+            for cs in fv.calls():
+                if cs.node != n.id:
+                    continue
+                callee = cs.callee
+                eff = False
+                if callee.kind == "func" and callee.func is not None:
+                    summ = ctx.E.summary(callee.func, dev if callee.func.cls is not None and callee.func.cls in ctx.prog.mro(dev) else None)
+                    eff = any(e.kind in ("EMIT", "VOLWRITE", "HISTWRITE", "COMPWRITE") for e in summ)
+                    name = callee.func.short
+                    if name in ("optimize_partition_by", "partition_by_column"):
+                        continue
+                elif callee.kind == "method" and callee.name in ("condense_log",):
+                    eff, name = True, callee.name
+                if eff:
+                    what = "call " + name
+                    recv = term(cs.call.func.value, cs.node) if isinstance(cs.call.func, ast.Attribute) else ""
+                    # the label of the condensed entry is checked per copy against the specification by C11 (lvh-count, label)
+                    kws = [k for k in cs.call.keywords if not (name.endswith("condense_log") and k.arg == "label")]
+                    args = (recv,) + tuple(term(a, cs.node) for a in cs.call.args) + tuple(sorted((k.arg or "**", term(k.value, cs.node)) for k in kws))
+                    break
+        if what is None:
+            continue
+        dep = lambda t: "wash_scheme" in t and "Is()" in t  # noqa: E731  (inside the deprecated block)
+        conds = []
+        skip = False
+        for r, pol, br in fv.atoms_at(n.id):
+            k = _key(_Norm().visit(__import__("copy").deepcopy(r)))
+            if "'§rec'" in k or "'§def'" in k:
+                pass
+            if "Is()" in k and "wash_scheme" in k:
+                if pol:
+                    skip = True  # event inside the deprecated None block (d1)
+                continue
+            conds.append((k, pol))
+        if skip:
+            continue
+        comp = [(_key(_Norm().visit(__import__("copy").deepcopy(r))), pol) for r, pol, br in fv.compound_conditions_at(n.id)]
+        loops = tuple(term(fv.cfg.nodes[h].ast.iter, h) for h in fv.cfg.enclosing_loops(n.id) if fv.cfg.nodes[h].kind == "for")
+        events.append((what, args, tuple(sorted(conds)), tuple(sorted(comp)), loops))
+    # canonical ids over the whole skeleton
+    return events
+
+
+def _split_events(text: str):
+    try:
+        return list(ast.literal_eval(text))
+    except Exception:
+        return [text]
 
 
 def _is_deprecated_wash_block_raw(s: ast.stmt) -> bool:
